@@ -241,6 +241,31 @@ theorem discRun_entryDone {s s' : DiscSt} {rest : List FsOp}
     have : op :: rest = [op] ++ rest := rfl
     rw [this, renamesOf_append, key.2, ih h2 key.1]; rfl
 
+/-- `created` only grows, and contains every path the accepted operations create -/
+theorem discRun_created {s s' : DiscSt} {rest : List FsOp}
+    (h : discRun isTemp entry oldPaths s rest = some s') :
+    (∀ p, p ∈ s.created → p ∈ s'.created) ∧ (∀ p, FsOp.create p ∈ rest → p ∈ s'.created) := by
+  induction rest generalizing s with
+  | nil => simp [discRun] at h; subst h; simp
+  | cons op rest ih =>
+    obtain ⟨s1, h1, h2⟩ := discRun_cons h
+    obtain ⟨ih1, ih2⟩ := ih h2
+    have key : (∀ p, p ∈ s.created → p ∈ s1.created) ∧
+        (∀ p, op = FsOp.create p → p ∈ s1.created) := by
+      cases op with
+      | create q =>
+        obtain ⟨_, _, _, rfl⟩ := discStep_create h1
+        refine ⟨fun p hp => List.mem_cons_of_mem _ hp, ?_⟩
+        intro p hp; cases hp; exact List.mem_cons_self
+      | write q tok => obtain ⟨_, rfl⟩ := discStep_write h1; simp
+      | rename src dst => obtain ⟨_, _, _, _, rfl⟩ := discStep_rename h1; simp
+      | unlink q => obtain ⟨_, rfl⟩ := discStep_unlink h1; simp
+    refine ⟨fun p hp => ih1 p (key.1 p hp), ?_⟩
+    intro p hp
+    rcases List.mem_cons.mp hp with hp | hp
+    · exact ih1 p (key.2 p hp.symm)
+    · exact ih2 p hp
+
 end Checker
 
 /-! ## the joint invariant of checker state, file system and processed prefix -/
@@ -559,8 +584,8 @@ theorem entry_last (hd : Discipline isTemp entry (old.files.map (·.1)) t = true
   rw [← allWritesTo_take_of_renamed hd k s' d' hmem]
   exact (I.ren s' d' hmem).2.2.2.2
 
-/-- in particular the entry-point itself holds its complete content, and every rename target is a
-    non-temporary path -/
+/-- every rename of a disciplined trace goes from a temporary to a non-temporary path (so
+    `isTemp entry = false` follows from the entry-point being renamed; no hypothesis needed) -/
 theorem renamed_not_temp (hd : Discipline isTemp entry (old.files.map (·.1)) t = true)
     (s d : FPath) (h : (s, d) ∈ renamesOf t) : isTemp d = false ∧ isTemp s = true := by
   obtain ⟨ds, hf⟩ := discipline_iff.mp hd
@@ -568,8 +593,9 @@ theorem renamed_not_temp (hd : Discipline isTemp entry (old.files.map (·.1)) t 
   obtain ⟨h1, _, h3, _, _⟩ := I.ren s d h
   exact ⟨h1, I.created s h3⟩
 
-/-- two renames onto the same final path are the same rename (so the `src` of `atomic_final` is
-    determined by `d`) -/
+/-- two renames onto the same final path carry the same complete content (the checker in fact
+    rejects a second rename onto `d`; this is the consequence relevant to `atomic_final`: the
+    content found at `d` does not depend on the choice of `src`) -/
 theorem rename_target_unique (hd : Discipline isTemp entry (old.files.map (·.1)) t = true)
     (k : Nat) (s₁ s₂ d : FPath) (h₁ : (s₁, d) ∈ renamesOf (t.take k))
     (h₂ : (s₂, d) ∈ renamesOf (t.take k)) : allWritesTo s₁ t = allWritesTo s₂ t := by
@@ -588,14 +614,15 @@ theorem allWritesTo_take_of_rename_at
     (hi : t[i]? = some (.rename src dst)) :
     allWritesTo src (t.take i) = allWritesTo src t := by
   have hmem : (src, dst) ∈ renamesOf (t.take (i + 1)) := by
-    rw [List.take_succ, hi, renamesOf_append]
+    rw [List.take_add_one, hi, renamesOf_append]
     exact List.mem_append_right _ (by simp)
-  rw [← allWritesTo_take_of_renamed hd (i + 1) src dst hmem, List.take_succ, hi,
+  rw [← allWritesTo_take_of_renamed hd (i + 1) src dst hmem, List.take_add_one, hi,
     allWritesTo_append]
   simp
 
 theorem writes_before_rename (hd : Discipline isTemp entry (old.files.map (·.1)) t = true) :
-    ∀ i j src dst tok, t[i]? = some (.rename src dst) → t[j]? = some (.write src tok) → j < i := by
+    ∀ (i j : Nat) (src dst : FPath) (tok : Nat),
+      t[i]? = some (FsOp.rename src dst) → t[j]? = some (FsOp.write src tok) → j < i := by
   intro i j src dst tok hi hj
   have hall := allWritesTo_take_of_rename_at hd i src dst hi
   -- `t = take i ++ drop i`, and the writes to `src` of `drop i` are empty
@@ -638,7 +665,7 @@ theorem write_is_temp (hd : Discipline isTemp entry (old.files.map (·.1)) t = t
 
 /-! ### 4. the content of a live temporary -/
 
-theorem temp_content (hd : Discipline isTemp entry (old.files.map (·.1)) t = true) (k : Nat)
+theorem temp_content (_hd : Discipline isTemp entry (old.files.map (·.1)) t = true) (k : Nat)
     (ds : DiscSt)
     (hk : discRun isTemp entry (old.files.map (·.1)) ⟨[], [], [], false⟩ (t.take k) = some ds) :
     ∀ p, p ∈ ds.live →
@@ -650,7 +677,7 @@ theorem temp_content (hd : Discipline isTemp entry (old.files.map (·.1)) t = tr
 
 /-! ### 7. error return: every still-live temporary unlinked -/
 
-theorem no_stray_temps (hd : Discipline isTemp entry (old.files.map (·.1)) t = true)
+theorem no_stray_temps (_hd : Discipline isTemp entry (old.files.map (·.1)) t = true)
     (dsf : DiscSt)
     (hrun : discRun isTemp entry (old.files.map (·.1)) ⟨[], [], [], false⟩ t = some dsf)
     (hfin : dsf.live = []) :
@@ -659,11 +686,15 @@ theorem no_stray_temps (hd : Discipline isTemp entry (old.files.map (·.1)) t = 
   have I : FsInv isTemp entry old t dsf (old.run t) := fsInv_of_discRun hrun
   exact I.dead p hp (by rw [hfin]; simp)
 
-/-- every path created by the run is a temporary, so the previous theorem covers all of them -/
-theorem created_is_temp (dsf : DiscSt)
+/-- "created by this run" is what it says: every `create p` of the trace puts `p` in the final
+    `created` set (and `p` is a temporary), so `no_stray_temps` covers every file the run created -/
+theorem created_of_create (dsf : DiscSt)
     (hrun : discRun isTemp entry (old.files.map (·.1)) ⟨[], [], [], false⟩ t = some dsf) :
     ∀ p, FsOp.create p ∈ t → p ∈ dsf.created ∧ isTemp p = true := by
-  sorry
+  intro p hp
+  have I : FsInv isTemp entry old t dsf (old.run t) := fsInv_of_discRun hrun
+  have := (discRun_created hrun).2 p hp
+  exact ⟨this, I.created p this⟩
 
 end Main
 
@@ -682,8 +713,31 @@ def exTraceBad : List FsOp :=
   [.create ".tmpA", .write ".tmpA" 1, .write ".tmpA" 2,
    .create ".tmpB", .write ".tmpB" 3, .rename ".tmpB" "out.jbk", .rename ".tmpA" "out.jbkc"]
 
-example : Discipline exIsTemp "out.jbk" [] exTrace = true := by decide
-example : Discipline exIsTemp "out.jbk" [] exTraceBad = false := by decide
+/-- the example trace is accepted (no pre-existing path) -/
+theorem exTrace_disciplined : Discipline exIsTemp "out.jbk" [] exTrace = true := by
+  simp [Discipline, discRun, discStep, exIsTemp, exTrace]
+
+/-- renaming the entry-point first is rejected -/
+theorem exTraceBad_rejected : Discipline exIsTemp "out.jbk" [] exTraceBad = false := by
+  simp [Discipline, discRun, discStep, exIsTemp, exTraceBad]
+
+/-- so the main theorems apply to it: at every crash point `out.jbk` is absent or complete -/
+example (k : Nat) :
+    ((FSt.mk []).run (exTrace.take k)).get "out.jbk" = none ∨
+      ((FSt.mk []).run (exTrace.take k)).get "out.jbk" = some [3] := by
+  have hd : Discipline exIsTemp "out.jbk" ((FSt.mk []).files.map (·.1)) exTrace = true :=
+    exTrace_disciplined
+  rcases atomic_final hd k "out.jbk" (by simp [exIsTemp]) with h | ⟨src, hs, h⟩
+  · left; rw [h]; rfl
+  · right
+    rw [h]
+    have hs' : (src, "out.jbk") ∈ renamesOf exTrace := by
+      have : renamesOf exTrace = renamesOf (exTrace.take k ++ exTrace.drop k) := by
+        rw [List.take_append_drop]
+      rw [this, renamesOf_append]; exact List.mem_append_left _ hs
+    simp [renamesOf, exTrace] at hs'
+    subst hs'
+    simp [allWritesTo, exTrace]
 
 end Example
 
